@@ -230,7 +230,10 @@ def add_view_with_placeholder(rng, p):
     if q.props and rng.random() < 0.7:  # let some constraint see the new variable
         j = rng.randrange(len(q.props))
         vs, a, ps = q.props[j]
-        if vs and a not in ("no_sub_cycle", "scc", "and", "exactly_true"):
+        # only constraints whose contract does not tie the parameters to the domains of their variables (gcc's value range, Booleans,
+        # successor ranges would be violated by swapping in a variable with another domain)
+        if vs and a in ("affine_eq", "affine_geq", "affine_leq", "alldifferent", "max_eq", "max_leq", "min_eq", "min_geq",
+                        "lexicographic_leq", "count_eq", "exactly_eq", "dummy", "relation", "element_liv"):
             vs = list(vs)
             vs[rng.randrange(len(vs))] = nvars - 1
             cand = (vs, a, ps)
